@@ -186,6 +186,11 @@ def _scenario(R, sc, in_thread):
         if sc.get("app"):
             signal.signal(signal.SIGINT, R.app.handler)
             signal.set_wakeup_fd(R.app.wfd, warn_on_full_buffer=False)
+        elif sc.get("disposition") in ("dfl", "ign"):
+            # the C-level dispositions an application may have chosen (no real SIGINT is
+            # sent in these scenarios)
+            signal.signal(signal.SIGINT, signal.SIG_DFL if sc["disposition"] == "dfl" else signal.SIG_IGN)
+            signal.set_wakeup_fd(-1)
         else:
             signal.signal(signal.SIGINT, R.default_sigint)
             signal.set_wakeup_fd(-1)
@@ -390,6 +395,8 @@ def run_case(ctx, case):
         return run_sigint(ctx, case)
     if case.get("kind") == "cycles":
         return run_cycles(ctx, case)
+    if case.get("kind") == "reuse":
+        return run_reuse(ctx, case)
     obs = run_scenario(case)
     judge(ctx, case, obs)
 
@@ -437,6 +444,12 @@ def matrix(rng, quick):
                                 "thread": thread, "tty": rng.choice(TTY_MODES),
                                 "flags": rng.choice([0, os.O_NONBLOCK, os.O_APPEND]),
                                 "body": INPUT_BODY[:6]})
+    for disp in ("dfl", "ign"):
+        for se in (False, True):
+            out.append({"kind": "input", "cfg": {"sigint_event": se}, "disposition": disp, "tty": rng.choice(TTY_MODES),
+                        "body": INPUT_BODY[:4]})
+            out.append({"kind": "caw+input", "cfg": {"sigint_event": se, "hide_cursor": se}, "disposition": disp,
+                        "body": NEST_BODY[:4]})
     for hide in (True, False):
         out.append({"kind": "full", "cfg": {"hide_cursor": hide}, "body": FULL_BODY, "tty": rng.choice(TTY_MODES)})
         for keep in (False, True):
@@ -523,6 +536,67 @@ def run_cycles(ctx, case):
     ctx.count("enter_exit_cycles", n * 4)
 
 
+def run_reuse(ctx, case):
+    """the same Input instance entered and left several times, on the main thread and on a
+    worker thread, while the application opens descriptors in between"""
+    from curtsies import Input
+    R = rig()
+    fd = R.pty.slave
+    set_tty_mode(fd, R.cooked, case.get("tty", "cooked"))
+    R.pty.drain_slave()
+    signal.signal(signal.SIGINT, R.default_sigint)
+    signal.set_wakeup_fd(-1)
+    inp = Input(R.pty.stream, sigint_event=case["sigint_event"])
+    base = snap(fd)
+    extras = []
+    problems = []
+
+    def use(box):
+        try:
+            with inp:
+                inp.send(0)
+        except BaseException as ex:  # noqa
+            box.append(repr(ex))
+
+    for k, where in enumerate(case["uses"]):
+        box = []
+        if where == "thread":
+            t = threading.Thread(target=use, args=(box,))
+            t.start()
+            t.join(20)
+        else:
+            use(box)
+        if box:
+            problems.append("use %d (%s) raised %s" % (k, where, box[0]))
+        for e in extras:
+            try:
+                os.fstat(e)
+            except OSError:
+                problems.append("descriptor %d opened by the application was closed by use %d (%s)" % (e, k, where))
+        # the application opens descriptors between uses; they may get recycled numbers
+        if not problems:
+            extras.extend(os.pipe())
+        now = snap(fd)
+        want_fds = dict(base["fds"])
+        got_fds = {n: v for n, v in now["fds"].items() if n not in extras}
+        for key in ("attrs", "flags", "sigint", "wakeup"):
+            if now[key] != base[key]:
+                problems.append("%s not restored after use %d (%s)" % (key, k, where))
+        if got_fds != {n: v for n, v in want_fds.items() if n not in extras}:
+            problems.append("fd table changed after use %d (%s)" % (k, where))
+        if problems:
+            break
+    for e in extras:
+        try:
+            os.close(e)
+        except OSError:
+            pass
+    termios.tcsetattr(fd, termios.TCSANOW, R.cooked)
+    ctx.judge(not problems, case, ("C12", "reuse", repr(case)), "C12:instance-reuse", "state as before entering",
+              problems, nontrivial=True)
+    ctx.count("reuse_histories")
+
+
 def run_sigint(ctx, case):
     """real SIGINT from a timer thread into a blocked request"""
     from curtsies import Input, events
@@ -603,6 +677,12 @@ def run(ctx):
     ctx.exhaustive = True
     if ctx.shard[0] == 0:
         run_cycles(ctx, {"kind": "cycles", "n": 100 if ctx.quick else 1000})
+        import itertools as _it
+        for n_uses in (2, 3):
+            for uses in _it.product(("main", "thread"), repeat=n_uses):
+                for se in (False, True):
+                    run_reuse(ctx, {"kind": "reuse", "uses": list(uses), "sigint_event": se,
+                                    "tty": rng.choice(TTY_MODES)})
     for _ in range(ctx.share(24 if ctx.quick else 500)):
         run_sigint(ctx, {"kind": "sigint", "sigint_event": rng.random() < .5, "app": rng.random() < .5,
                          "delay": rng.choice([0.0, 0.001, 0.005, 0.02]) + rng.random() * 0.03,
